@@ -118,6 +118,10 @@ func (w *World) verifyFuncMode(fi *FuncInfo, ct *Contract, defaultSafety bool, p
 		c.LockChecks = true
 		c.Safety = false
 		c.Name = fi.Key
+	} else if ct != nil && contractMentionsLocks(ct) {
+		// a contract that speaks about locks gets the automatic lock invariants and balance obligations too
+		c.AutoLocks = true
+		c.LockChecks = true
 	}
 	c.FI = fi
 	c.PropFilter = prop
@@ -339,6 +343,20 @@ func (c *FCtx) userAxioms() []*Term {
 		out = append(out, se.evalBool(a.Expr))
 	}
 	return out
+}
+
+func contractMentionsLocks(ct *Contract) bool {
+	for _, r := range ct.Requires {
+		if strings.Contains(r.Text, "held(") {
+			return true
+		}
+	}
+	for _, r := range ct.Ensures {
+		if strings.Contains(r.Text, "held(") {
+			return true
+		}
+	}
+	return hasTouches(ct)
 }
 
 func shortStack() string {
